@@ -57,7 +57,7 @@ func Parse(raw *Raw) ([]*Converter, error) {
 		converters = append(converters, converter)
 	}
 
-	sort.Slice(converters, func(i, j int) bool {
+	sort.SliceStable(converters, func(i, j int) bool {
 		return converters[i].Name < converters[j].Name
 	})
 
